@@ -1,7 +1,7 @@
 """C09 - waiting on sub-tasks is tracked exactly and can never deadlock a runner.
 
 A (tracking) : random sequences of wait declarations, status changes, completions and queries over a small id universe on both
-               backends against a reference wait-graph; icontract class invariant on MemBlockingControl (_ready equals its definition)
+               backends against a reference wait-graph; invariant hook on a checked subclass of MemBlockingControl, evaluated under its own lock (_ready equals its definition)
 B (progress) : generated call trees (single .result, parallelize(...).results, mixed) executed by the real ThreadRunner with 1 or 2
                slots under fair round-robin / random schedules in virtual time; bounded progress in scheduler steps with lasso detection
 """
@@ -63,23 +63,35 @@ class InvariantBroken(Exception):
 _inv_evals = [0]
 
 
-def ready_matches_definition(self):
-    _inv_evals[0] += 1
-    expected = {x for x in self.waited_by if not self.waiting_for.get(x)}
-    return set(self._ready) == expected
+def make_checked_class():
+    """Subclass of the in-memory blocking control whose mutators re-check, under the object's own lock, that the maintained
+    ready set equals its definition (the "invariant at a hook" shape; the repository class itself is left untouched)."""
+    from pynenc.orchestrator import mem_orchestrator as mo
+
+    class CheckedMemBlockingControl(mo.MemBlockingControl):
+        def _verif_check(self):
+            with self._lock:
+                _inv_evals[0] += 1
+                expected = {x for x in self.waited_by if not self.waiting_for.get(x)}
+                if set(self._ready) != expected:
+                    raise InvariantBroken(f"_ready={sorted(self._ready)} expected={sorted(expected)}")
+
+        def waiting_for_results(self, caller_invocation_id, result_invocation_ids):
+            r = super().waiting_for_results(caller_invocation_id, result_invocation_ids)
+            self._verif_check()
+            return r
+
+        def release_waiters(self, waited_invocation_id):
+            r = super().release_waiters(waited_invocation_id)
+            self._verif_check()
+            return r
+    return CheckedMemBlockingControl
 
 
 def install_invariant():
-    """icontract class invariant on the in-memory blocking control (single-threaded runs only)."""
-    try:
-        import icontract
-    except Exception:
-        return None
     from pynenc.orchestrator import mem_orchestrator as mo
     orig = mo.MemBlockingControl
-    wrapped = icontract.invariant(ready_matches_definition, error=lambda self: InvariantBroken(
-        f"_ready={sorted(self._ready)} waited_by={ {k: sorted(v) for k, v in self.waited_by.items()} } waiting_for={ {k: sorted(v) for k, v in self.waiting_for.items() if v} }"))(orig)
-    mo.MemBlockingControl = wrapped
+    mo.MemBlockingControl = make_checked_class()
     return orig
 
 
